@@ -187,7 +187,7 @@ func c20BTRequest(d *draws) proto.Message {
 	case 6:
 		return &btpb.SampleRowKeysRequest{TableName: []string{c20Keep, c20Scr, "nope", ""}[d.n(4)]}
 	case 7:
-		req := &btapb.CreateTableRequest{Parent: []string{"projects/p/instances/i", "", "x"}[d.w(4, 1, 1)], TableId: []string{"scr2", "", "scr", "a/b", "tmp"}[d.n(5)]}
+		req := &btapb.CreateTableRequest{Parent: []string{"projects/p/instances/i", "", "x"}[d.w(4, 1, 1)], TableId: []string{"scr2", "", "scr", "a/b", "tmp", strings.Repeat("n", 300), "a\x00b", "tmp.deleted", "tmp.table.proto"}[d.n(9)]}
 		switch d.n(4) {
 		case 1:
 			req.Table = &btapb.Table{}
